@@ -192,16 +192,16 @@ Section Levels.
 
   Let hi' := hi ++ [Node []].
 
-  Lemma Hl' : forall l, In l (lo ++ hi') -> wf l = true /\ is_node l = true.
+  Lemma lv_ok : forall l, In l (lo ++ hi') -> wf l = true /\ is_node l = true.
   Proof.
     intros l Hin. unfold hi' in Hin. rewrite app_assoc in Hin. apply in_app_iff in Hin as [Hin|[<-|[]]].
     - rewrite forallb_forall in Hwf, Hnode. auto.
     - split; reflexivity.
   Qed.
 
-  Lemma Hpair' : forall a b, In a (lo ++ hi') -> In b (lo ++ hi') -> agree a b.
+  Lemma lv_pair : forall a b, In a (lo ++ hi') -> In b (lo ++ hi') -> agree a b.
   Proof.
-    intros a b Ha Hb. pose proof (Hl' a Ha) as [_ Na]. pose proof (Hl' b Hb) as [_ Nb].
+    intros a b Ha Hb. pose proof (lv_ok a Ha) as [_ Na]. pose proof (lv_ok b Hb) as [_ Nb].
     unfold hi' in Ha, Hb. rewrite app_assoc in Ha, Hb.
     apply in_app_iff in Ha as [Ha|[<-|[]]]; apply in_app_iff in Hb as [Hb|[<-|[]]].
     - apply levels_tc_agree with (ls := lo ++ hi); assumption.
@@ -219,7 +219,7 @@ Section Levels.
                (forall q, q <> [] -> shape_at q (Node d0) = oracle q (lo ++ hi)) /\
                view_ok (lo ++ Node [] :: hi) (Node d0) = true.
   Proof.
-    destruct (merge_all_oracle (lo ++ hi') Hl' Hpair') as [m [Em [Wm Sm]]].
+    destruct (merge_all_oracle (lo ++ hi') lv_ok lv_pair) as [m [Em [Wm Sm]]].
     exists m. rewrite merge_all_skip_empty. split; [exact Em|]. split; [exact Wm|].
     assert (S : forall q, q <> [] -> shape_at q (Node m) = oracle q (lo ++ hi)).
     { intros q Hq. rewrite (Sm q Hq). unfold hi'. rewrite app_assoc. apply oracle_snoc_empty. exact Hq. }
@@ -269,7 +269,7 @@ Section Levels.
                view_ok (lo ++ Node d :: hi) (Node d1) = true.
   Proof.
     intros E0 El. rewrite merge_all_skip_empty in E0.
-    destruct (merge_all_oracle (lo ++ hi') Hl' Hpair') as [m [Em [Wm Sm]]].
+    destruct (merge_all_oracle (lo ++ hi') lv_ok lv_pair) as [m [Em [Wm Sm]]].
     rewrite E0 in Em. inversion Em; subst m.
     pose proof (load_meets_spec d0 pfx env Wm) as Hspec. rewrite El in Hspec.
     assert (Wd : wf (Node d) = true /\ no_empty_sections (Node d) = true).
@@ -282,7 +282,7 @@ Section Levels.
     { apply sub_of_leaves; try assumption. intros q w Hin.
       destruct (load_never_creates d0 pfx env d Wm El q w Hin) as [old [s [Hold _]]].
       exists old. exact Hold. }
-    destruct (insert_shape lo hi' (Node d) (Node []) d0 Hl' Hpair' eq_refl Wd eq_refl E0 Hsub)
+    destruct (insert_shape lo hi' (Node d) (Node []) d0 lv_ok lv_pair eq_refl Wd eq_refl E0 Hsub)
       as [d1 [E1 [W1 S1]]].
     exists d1. split; [exact E1|].
     change (obliterate d1 (Node [])) with d1 in *.
